@@ -49,7 +49,7 @@ def prove {α : Type} (fld : Fld α) (N r logb logn : Nat) (alphas coeffs positi
           positions := ps
           evaluations := qevals }
         let _ : BEq (List α) := ⟨beqList F⟩
-        let v := verify F false id o inp
+        let v := verify F true id o inp
         let reuse := st'.layers.isEmpty && st'.remainder.isEmpty
         let body := "|".intercalate (layers.map (printRows fld.print))
         s!"rem={printList fld.print rem} layers={if layers.isEmpty then "-" else body} v={verdictStr v} reuse={boolStr reuse}"
